@@ -95,7 +95,11 @@ T_Exit == /\ IsEvent("exit")
              /\ IF ~Known(t) THEN G("exit.cur", cur = t)
                 ELSE IF t \in Client
                 THEN /\ G("exit.cur", cur = t /\ ~yl)
-                     /\ G("exit.client." \o (IF pend[t] # NoOp THEN pend[t].op ELSE cli[t].op), cli[t].stage = "idle" /\ pend[t] = NoOp /\ E.how = "ready")
+                     \* (a client that dies inside a call on an actor that has FAILED: the failure was not contained, C06)
+                     /\ GX("exit.client." \o (IF pend[t] # NoOp THEN pend[t].op ELSE cli[t].op),
+                           IF cli[t].ta \in Actor /\ act[cli[t].ta].pc = "failed" THEN {"C06"}
+                           ELSE IF pend[t] # NoOp /\ pend[t].h \in DOMAIN hnd /\ act[hnd[pend[t].h].a].pc = "failed" THEN {"C06"} ELSE {},
+                           cli[t].stage = "idle" /\ pend[t] = NoOp /\ E.how = "ready")
                 ELSE IF t \in DOMAIN tmr
                 THEN /\ G("exit.cur", cur = t /\ ~yl)
                      /\ G(IF act[tmr[t].a].rtaken > 0 /\ tmr[t].inc = act[tmr[t].a].inc THEN "exit.timer.afterrestart"
@@ -109,6 +113,9 @@ T_Exit == /\ IsEvent("exit")
                           THEN (IF act[t].stream THEN "exit.loop.callback.stream"
                                 ELSE IF act[t].jh # "none" THEN "exit.loop.callback.owning" ELSE "exit.loop.callback")
                           ELSE IF t \in Actor /\ act[t].tmo >= 0 /\ ~act[t].failto /\ hst.ab[t] # <<>> THEN "exit.loop.aftertimeout"   \* an abandoned invocation was to be survived
+                          ELSE IF t \in Actor /\ (\/ act[t].pc \in {"restart", "rs_stopped", "rs_mid", "rs_started"}
+                                                  \/ act[t].pc = "dequeued" /\ act[t].curp.k = "restart"
+                                                  \/ act[t].pc = "idle" /\ act[t].mq # <<>> /\ Head(act[t].mq).k = "restart") THEN "exit.loop.restart"    \* an accepted restart was not carried out
                           ELSE IF t \in Actor /\ LiveH(t, StrongKinds) THEN "exit.loop.held"      \* the task ended although strong handles exist and nobody stopped it
                           ELSE "exit.loop", t \in Actor /\ act[t].pc \in {"done", "failed"})
                      /\ G("exit.how", (E.how = "panic") <=> (act[t].why = "panic"))
